@@ -219,7 +219,7 @@ def slotGoodB (cfg : Cfg) : Slot → Bool
   | .updated => cfg.resortUpdated == .own && cfg.coldFilterUpdated && cfg.addGuardUpdated &&
       cfg.updRefreshUpdated && voidSafeB cfg
   | .expire => cfg.resortExpire == .own && cfg.coldFilterExpire && cfg.addGuardExpire &&
-      cfg.updRefreshExpireOnFlag && voidSafeB cfg
+      cfg.updRefreshExpireOnFlag && voidSafeB cfg && cfg.refileGuardExpire && cfg.patchExpiredReindexesAll
   | .value _ => !cfg.valueShared && cfg.resortValue == .own && cfg.coldFilterValueType && cfg.addGuardValueType &&
       cfg.updRefreshValue && voidSafeB cfg
 
@@ -238,7 +238,8 @@ theorem slotGood_of (cfg : Cfg) (s : Slot) (h : slotGoodB cfg s = true) : SlotGo
             resort := by simp [incrSort, h.1],
             exclusive := by intro s' hs'; cases s' <;> simp_all [phys],
             voidSafe := voidSafe_of cfg h.2,
-            stable := fun o rq => Or.inr (by simp [attrEq, mergeRec]) }
+            stable := fun o rq => Or.inr (by simp [attrEq, mergeRec]),
+            refile := fun _ => rfl, reindex := fun h => by cases h }
   | created =>
     simp only [slotGoodB, Bool.and_eq_true, beq_iff_eq] at h
     obtain ⟨⟨⟨⟨h1, h2⟩, h3⟩, h4⟩, h5⟩ := h
@@ -246,7 +247,8 @@ theorem slotGood_of (cfg : Cfg) (s : Slot) (h : slotGoodB cfg s = true) : SlotGo
             resort := by simp [incrSort, h1],
             exclusive := by intro s' hs'; cases s' <;> simp_all [phys],
             voidSafe := voidSafe_of cfg h5,
-            stable := fun o rq => Or.inl (by simp [refreshes, h4]) }
+            stable := fun o rq => Or.inl (by simp [refreshes, h4]),
+            refile := fun _ => by simp [refileGuard, addGuard, carries, h3], reindex := fun h => by cases h }
   | updated =>
     simp only [slotGoodB, Bool.and_eq_true, beq_iff_eq] at h
     obtain ⟨⟨⟨⟨h1, h2⟩, h3⟩, h4⟩, h5⟩ := h
@@ -254,19 +256,24 @@ theorem slotGood_of (cfg : Cfg) (s : Slot) (h : slotGoodB cfg s = true) : SlotGo
             resort := by simp [incrSort, h1],
             exclusive := by intro s' hs'; cases s' <;> simp_all [phys],
             voidSafe := voidSafe_of cfg h5,
-            stable := fun o rq => Or.inl (by simp [refreshes, h4]) }
+            stable := fun o rq => Or.inl (by simp [refreshes, h4]),
+            refile := fun _ => by simp [refileGuard, addGuard, carries, h3], reindex := fun h => by cases h }
   | expire =>
     simp only [slotGoodB, Bool.and_eq_true, beq_iff_eq] at h
-    obtain ⟨⟨⟨⟨h1, h2⟩, h3⟩, h4⟩, h5⟩ := h
+    obtain ⟨⟨⟨⟨⟨⟨h1, h2⟩, h3⟩, h4⟩, h5⟩, h6⟩, h7⟩ := h
     exact { phys := rfl, cold := fun _ => by simp [coldIncl, carries, h2], guard := fun _ => by simp [addGuard, carries, h3],
             resort := by simp [incrSort, h1],
             exclusive := by intro s' hs'; cases s' <;> simp_all [phys],
             voidSafe := voidSafe_of cfg h5,
             stable := by
               intro o rq
-              by_cases he : rq.expire = 0
-              · exact Or.inr (by simp [attrEq, mergeRec, he])
-              · exact Or.inl (by simp [refreshes, h4, mergeRec, he]) }
+              by_cases hc : rq.clearExpire = true
+              · exact Or.inl (by simp [refreshes, h4, mergeRec, hc])
+              · by_cases he : rq.expire = 0
+                · exact Or.inr (by simp [attrEq, mergeRec, he, hc])
+                · exact Or.inl (by simp [refreshes, h4, mergeRec, he])
+            refile := fun _ => by simp [refileGuard, carries, h6]
+            reindex := fun _ => h7 }
   | value t =>
     simp only [slotGoodB, Bool.and_eq_true, beq_iff_eq, Bool.not_eq_true'] at h
     obtain ⟨⟨⟨⟨⟨h0, h1⟩, h2⟩, h3⟩, h4⟩, h5⟩ := h
@@ -289,7 +296,50 @@ theorem slotGood_of (cfg : Cfg) (s : Slot) (h : slotGoodB cfg s = true) : SlotGo
                   · simp [hkeep]
                   · simp only [hkeep, Bool.false_eq_true, if_false]
                     exact ⟨hsame.2.symm, hsame.1.symm⟩
-              · exact Or.inl (by simp [refreshes, h4, hc]) }
+              · exact Or.inl (by simp [refreshes, h4, hc])
+            refile := fun _ => by simp [refileGuard, addGuard, carries, h3]
+            reindex := fun h => by cases h }
+
+/-- What `ShiftMatchingTreasures` (no filters) hands out and removes: after every history, the first
+    `HowMany` (0: all) records of the index in its order, inside `[from, to)` — a correct page with
+    offset 0 of the swamp's contents before the shift. -/
+theorem shift_correct (cfg : Cfg) (s : Slot) (hg : SlotGood cfg s) (h : List Op) (q : Query)
+    (hq : q.slot = s) (h0 : q.from_ = 0) (hne : (run cfg h).store.isEmpty = false) :
+    CorrectPage (matchList cfg (run cfg h) q) q (run cfg h).store := by
+  subst hq
+  obtain ⟨hs, hp⟩ := slotInv_run hg h
+  generalize run cfg h = st at *
+  have hpair : (stepBuild cfg st q).pairs (phys cfg q.slot) = (st.pairs q.slot).build cfg q.slot st.store := by
+    simp only [stepBuild, hne, Bool.false_eq_true, if_false, setPair, if_true, hg.phys]
+  have hok : PairOk q.slot st.store ((st.pairs q.slot).build cfg q.slot st.store) := hp.build hg hs
+  obtain ⟨hasc, hdesc⟩ := hok (Pair.build_init cfg q.slot st.store _)
+  unfold matchList
+  simp only []
+  rw [hpair]
+  generalize hl : (if q.asc = true then ((st.pairs q.slot).build cfg q.slot st.store).asc
+      else ((st.pairs q.slot).build cfg q.slot st.store).desc) = l
+  have hlok : ListOk q.slot q.asc st.store l := by
+    cases hqa : q.asc
+    · simp only [hqa, Bool.false_eq_true, if_false] at hl; rw [← hl]; exact hdesc
+    · simp only [hqa, if_true] at hl; rw [← hl]; exact hasc
+  refine ⟨l, hlok.perm hs, ?_, ?_⟩
+  · refine hlok.sorted.imp ?_
+    intro a b hab
+    have := (ordB_iff_sle q.slot q.asc a b).mp hab
+    unfold ord
+    cases hqa : q.asc <;> simpa [hqa] using this
+  · have hw : (fun r => inTimeRange (ts q.slot r) q.fromT q.toT) = inWindow q := by
+      funext r
+      unfold inTimeRange inWindow
+      cases q.fromT <;> cases q.toT <;> rfl
+    rw [hw]
+    simp only [page, inRange, h0, List.drop_zero]
+
+/-- …for every index type whose facts are sound -/
+theorem shift_partial (cfg : Cfg) (h : List Op) (q : Query) (hs : slotGoodB cfg q.slot = true)
+    (h0 : q.from_ = 0) (hne : (run cfg h).store.isEmpty = false) :
+    CorrectPage (matchList cfg (run cfg h) q) q (run cfg h).store :=
+  shift_correct cfg q.slot (slotGood_of cfg _ hs) h q rfl h0 hne
 
 /-- all facts sound -/
 def seqGoodB (cfg : Cfg) : Bool :=
@@ -441,7 +491,15 @@ def witnesses : List (String × List Op × Query) := [
   ("C07-cold-build-no-zero-filter", [setOp "k1" .i64 1 0 0 0, setOp "k2" .i64 2 2 2 2], fullRead .updated true),
   ("C07-cold-build-no-zero-filter", [setOp "k1" .i64 1 0 0 0, setOp "k2" .i64 2 2 2 2], fullRead .expire true),
   ("C07-void-dropped-from-key-index",
-    [setOp "k1" .i64 1 0 0 0, .read (fullRead .key true), setOp "k1" .void 0 0 0 0], fullRead .key true)]
+    [setOp "k1" .i64 1 0 0 0, .read (fullRead .key true), setOp "k1" .void 0 0 0 0], fullRead .key true),
+  -- a patch clears the expiry of a record filed in the built expiration index
+  ("C07-expire-cleared-refiled",
+    [setOp "k1" .bytes 0 0 0 3, setOp "k2" .bytes 0 0 0 5, .read (fullRead .expire true), .patch "k1" .clear],
+    fullRead .expire true),
+  -- after a reload (flags clear) an ops-only PatchExpired leaves its selection out of the ascending index
+  ("C07-patch-expired-partial-reindex",
+    [setOp "k1" .bytes 0 0 0 3, setOp "k2" .bytes 0 0 0 5, .reload, .patchExpired .keep],
+    fullRead .expire true)]
 
 /-- the findings whose witness fails under `cfg` -/
 def seqFindings (cfg : Cfg) : List String :=
@@ -491,7 +549,7 @@ def beforeFix : Cfg := {
   addGuardCreated := true, addGuardUpdated := true, addGuardExpire := true, addGuardValueType := false,
   updRefreshCreated := false, updRefreshUpdated := false, updRefreshValue := false, updRefreshExpireOnFlag := true,
   typeChangeDetected := false, valueShared := true, flagsSticky := true, setVoidClearsTyped := false,
-  initialisedAfterFill := false }
+  initialisedAfterFill := false, refileGuardExpire := true, patchExpiredReindexesAll := true }
 
 /-- the facts of the tree as of this writing: `SaveFunction` re-files a treasure in the built
     creation-time or update-time index when that timestamp changes, and any add to / content change in
@@ -556,6 +614,27 @@ example : findings repaired = [] := by decide
 example : findings { repaired with bsAscFrom := .le } = ["C07-window-bounds-operator"] := by decide
 example : findings { repaired with bsDescTo := .le } = ["C07-window-bounds-operator"] := by decide
 example : findings { repaired with coldFilterExpire := false } = ["C07-cold-build-no-zero-filter"] := by decide
+example : findings { repaired with refileGuardExpire := false } = ["C07-expire-cleared-refiled"] := by decide
+example : findings { repaired with patchExpiredReindexesAll := false } = ["C07-patch-expired-partial-reindex"] := by decide
+/-- Closed witness: with the re-add unguarded, clearing `k1`'s expiry by a patch leaves it in the
+    built expiration index, under key 0. -/
+theorem witness_expire_cleared_refiled :
+    (answer { current with refileGuardExpire := false }
+      (run { current with refileGuardExpire := false }
+        [setOp "k1" .bytes 0 0 0 3, setOp "k2" .bytes 0 0 0 5, .read (fullRead .expire true), .patch "k1" .clear])
+      (fullRead .expire true)).map (·.map (fun r => (r.key, r.expire))) = some [("k1", 0), ("k2", 5)] := by decide
+/-- Closed witness: re-indexing only what was not patched loses, after a reload, every patched record
+    from the ascending expiration index (the descending one still has them). -/
+theorem witness_patch_expired_partial_reindex :
+    let cfg := { current with patchExpiredReindexesAll := false }
+    let h := [setOp "k1" .bytes 0 0 0 3, setOp "k2" .bytes 0 0 0 5, .reload, .patchExpired .keep]
+    (answer cfg (run cfg h) (fullRead .expire true)).map (·.map (·.key)) = some [] ∧
+    (answer cfg (run cfg h) (fullRead .expire false)).map (·.map (·.key)) = some ["k2", "k1"] := by decide
+/-- the same history without the reload is harmless (the sticky flag makes `SaveFunction` re-file) -/
+example :
+    let cfg := { current with patchExpiredReindexesAll := false }
+    let h := [setOp "k1" .bytes 0 0 0 3, setOp "k2" .bytes 0 0 0 5, .patchExpired .keep]
+    (answer cfg (run cfg h) (fullRead .expire true)).map (·.map (·.key)) = some ["k1", "k2"] := by decide
 theorem holds_repaired : Holds repaired := holds_of_good repaired (by decide)
 /-- …also when the `SetContent…` setters are repaired to raise `contentTypeChanged` (the first
     `SaveFunction` branch becomes reachable): a Set never turns typed content into void -/
@@ -636,6 +715,13 @@ structure Facts where
   setVoidClearsTyped : Tri
   /-- `buildBeacon` publishes the `initialized` flag after filling and sorting, under a build lock -/
   initialisedAfterFill : Tri
+  /-- the expiration branch of `SaveFunction` re-adds only a non-zero expiry -/
+  refileGuardExpire : Tri
+  /-- `PatchExpired` re-indexes its whole selection -/
+  patchExpiredReindexesAll : Tri
+  /-- `PatchExpired`, `SelectExpiredForPatchWithCap`, `ReindexExpiration`, `applyPatchMeta`,
+      `CloneAndDeleteMatchingTreasures` and `beacon.ShiftMatching` have the modelled shape -/
+  claimPathsStandard : Tri
   /-- `GetBeacon` (used by ShiftMatching, C11) serves all eleven value index types / builds the
       requested type: recorded, not used by the index-read path -/
   getBeaconServesAllValueTypes : Tri
@@ -663,7 +749,8 @@ def cfgOf (f : Facts) : Cfg := {
   updRefreshCreated := f.updRefreshCreated.isYes, updRefreshUpdated := f.updRefreshUpdated.isYes,
   updRefreshValue := f.updRefreshValue.isYes, updRefreshExpireOnFlag := f.updRefreshExpireOnFlag.isYes,
   typeChangeDetected := f.typeChangeDetected.isYes, valueShared := f.valueShared.isYes, flagsSticky := f.flagsSticky.isYes,
-  setVoidClearsTyped := f.setVoidClearsTyped.isYes, initialisedAfterFill := f.initialisedAfterFill.isYes }
+  setVoidClearsTyped := f.setVoidClearsTyped.isYes, initialisedAfterFill := f.initialisedAfterFill.isYes,
+  refileGuardExpire := f.refileGuardExpire.isYes, patchExpiredReindexesAll := f.patchExpiredReindexesAll.isYes }
 
 /-- a fact the model depends on was not recognised in the source -/
 def unknownFact (f : Facts) : Option String :=
@@ -679,8 +766,11 @@ def unknownFact (f : Facts) : Option String :=
   if [f.coldFilterCreated, f.coldFilterUpdated, f.coldFilterExpire, f.coldFilterValueType,
       f.addGuardCreated, f.addGuardUpdated, f.addGuardExpire, f.addGuardValueType,
       f.updRefreshCreated, f.updRefreshUpdated, f.updRefreshValue, f.updRefreshExpireOnFlag,
-      f.typeChangeDetected, f.valueShared, f.flagsSticky, f.setVoidClearsTyped, f.initialisedAfterFill].any (· == .unknown) then
+      f.typeChangeDetected, f.valueShared, f.flagsSticky, f.setVoidClearsTyped, f.initialisedAfterFill,
+      f.refileGuardExpire].any (· == .unknown) then
     some "treasuresForBeacon / addTreasureToBeacons / SaveFunction / treasure flags" else
+  if f.patchExpiredReindexesAll == .unknown || !f.claimPathsStandard.isYes then
+    some "PatchExpired / ReindexExpiration / ShiftMatching" else
   none
 
 def classify (f : Facts) : Verdict :=
